@@ -104,6 +104,12 @@ impl BigNum {
         BigNum { pos: n >= 0, val }
     }
 
+    /// Verification hook: sign flag and limbs exactly as stored
+    #[cfg(hyeong_verif)]
+    pub fn verif_parts(&self) -> (bool, &[u32]) {
+        (self.pos, &self.val)
+    }
+
     /// Makes new `BigNum` from vector
     /// Doesn't support negative number
     /// vector is `u32::max_value()` based number
